@@ -34,6 +34,20 @@ def run_check(prop, tier):
         elif m["violated"] or "violated" in m["tail"]:
             raise vlib.Infra("stage M: Timer(%s) does not refine AbsTimer (not a verdict about the code)" % DESIGN)
         print("stage M: Timer(%s) refines AbsTimer, %d states" % (DESIGN, m["states"]))
+        # Timer2: the two critical sections of setHandshakeTimer with two goroutines arming at the same time; the design
+        # without the channel comparison at expiry is the negative control
+        for name, design in (("Timer2_M", "asIs"), ("Timer2_N", "noChanCheck")):
+            with open(os.path.join(sd, name + ".cfg"), "w") as f:
+                f.write('SPECIFICATION Spec\nCONSTANTS MaxArms = %d\n Procs = {1, 2}\n Design = "%s"\nPROPERTY Refines\nINVARIANT NoStaleFire\n'
+                        'CHECK_DEADLOCK FALSE\n' % (4 if q else 5, design))
+        m2 = vlib.tlc(sd, "Timer2", cfg="Timer2_M.cfg", workers=4, timeout=1800)
+        if m2["error"] or m2["violated"]:
+            raise vlib.Infra("stage M: Timer2 (concurrent arms) does not refine AbsTimer: %s" % (m2["violated"] or m2["error"]))
+        n2 = vlib.tlc(sd, "Timer2", cfg="Timer2_N.cfg", workers=4, timeout=1800)
+        if not n2["violated"]:
+            raise vlib.Infra("stage M: the negative control of Timer2 (no channel comparison at expiry) was not violated")
+        m["states"] += m2["states"]
+        print("stage M: Timer2 (two goroutines arming at once) refines AbsTimer, %d states; its negative control does not" % m2["states"])
         # stage G
         maxops = 4 if q else 5
         with open(os.path.join(sd, "TimerGen.cfg"), "w") as f:
